@@ -2,7 +2,9 @@
   Property C02 — the native jd diff text is a lossless carrier of a diff.
   Statement file (proofs in JdProofs/NativeRoundTrip.lean, namespace `Jd.NativeRT`: the TEXT clauses;
   JdProofs/Robust.lean, namespace `Jd.Robust`, group 2: the EFFECT clause;
-  JdProofs/NativeEndToEnd.lean, namespace `Jd.E2E`: the diffs PRODUCED by `Diff`, END TO END).
+  JdProofs/NativeEndToEnd.lean, namespace `Jd.E2E`: the diffs PRODUCED by `Diff`, END TO END, list
+  reading and strict strategy; JdProofs/NativeEndToEndSet.lean, namespace `Jd.E2ES`: the same END TO END
+  for the SET / MULTISET readings, the MERGE strategy, and MERGE with SET / MULTISET).
 
   Model side: `renderM nc opts d` is `Diff.Render(opts...)`, `readDiffM nc text` is
   `ReadDiffString(text)` (JdModel/Native.lean); the reader is the 7-state automaton with the
@@ -105,9 +107,83 @@
           `a.wf`, `b.wf`, `finiteNums`, `FloatLaws`, `DPL.HashOK o a b`, `DPL.ZeroOK a b`
                 (`print_read_patch*` only)   the domain of the C01 list theorem, unchanged: the
                 in-memory diff must be correct for the printed one to be.
-        NOT in E4: SET / MULTISET readings, SetKeys, the MERGE strategy (their hunks carry set / keyed
-        path elements or merge metadata, i.e. other premises; E1 / E3 cover them hunk-wise, with the
-        premises as hypotheses), colour output end to end.
+        NOT in E4: SET / MULTISET readings and the MERGE strategy (→ E5, E6, E7: their hunks carry set
+        path elements or merge metadata, i.e. other premises), SetKeys, colour output end to end.
+   (E5) DIFFS PRODUCED BY `Diff`, END TO END, SET / MULTISET readings, STRICT strategy, no SetKeys
+        option, no Precision option (`DES.SetReading o`: `dispatchTag o = .set ∧ keysOf o = none`, or
+        `dispatchTag o = .mset`; `precOf o = 0`; `isMerge o = false`; in particular `jd -set`, `jd -mset`).
+          `produced_diff_in_domain_set`    every hunk of `a.Diff(b)` is strict, has no context lines and
+                                        sits at a path of keys of the two documents possibly followed
+                                        by `{}` / `[]` (`E2ES.SPath`); the diff satisfies `wfDiff`, `rawHunk`
+                                        (a replaced array is reported as the PLAIN array here, unlike
+                                        the list reading), `noEmptySetKeys`, `voidOK`, `listDocHunk`: the
+                                        premises of the text clauses AND of the EXACT effect theorem E1;
+          `produced_diff_codec_set`, `produced_diff_paths_codec_set`, `produced_diff_renders_set`
+                                        the codec contract / the success of `Render` from the contract
+                                        on the sub-terms of `a`, `b` (every payload value is LITERALLY
+                                        one of them) and on the paths;
+          `produced_diff_text_lossless_set`  C02 proper: read back, identical text, and EXACTLY the same
+                                        outcome as `a.Diff(b)` on EVERY document (any array tags);
+          `print_read_patch_set`, `print_read_patch_total_set`   `jd -set a b | jd -p -set a` on the model:
+                                        `a.Patch` of the diff read back succeeds with THE SAME document
+                                        as the in-memory `a.Patch(a.Diff(b))`, which is equivalent to `b`
+                                        (`equivB o`) and `Equals` `b` under the options of the diff.
+        Hypotheses of E5 and why: `a.rawDoc`, `a.wf`, `b.rawDoc`, `b.wf` (premises / lossless) resp.
+        `a.setDoc`, `b.setDoc` (end to end: plain arrays, sorted unique keys, finite numbers, no `-0`:
+        documents as read from text, the domain of the C01 set theorem); `E2E.voidFree a`, `E2E.voidFree b`
+        (needed: `void_element_read_witness_set`, `[void]` → `[]` under SET is printed as `@ [{}]` alone,
+        which the reader rejects; no reader produces void inside a document);
+        `DES.DiffFaithful o (subterms a) (subterms b)` (premises / lossless; decidable:
+        `DES.diffFaithful_of_check`) resp. `HashFaithful o (subterms a ++ subterms b)` with `FloatEq0` (end
+        to end; implies the former): no harmful hash collision — with an alias such as `{"a":""}` /
+        `{"a":[]}` the set diff descends below a `{"k":v}` element (known finding KF-C04-alias), and the
+        in-memory theorem C01 needs it anyway; `FloatLaws`, `FloatEq0` (end to end: the IEEE-754 laws of
+        C01 in the set modes); the codec contract on the sub-terms and on the paths, as in E4.
+   (E6) DIFFS PRODUCED BY `Diff`, END TO END, MERGE strategy, LIST reading of arrays, no Precision
+        (`isMerge o = true`, `dispatchTag o = .list`; `precOf o = 0` for the `print_read_patch_merge*`
+        theorems only; in particular `jd -f merge`).
+          `produced_diff_in_domain_merge`  `a.Diff(b, MERGE)` is a sequence of merge hunks `Merge.mh ks v`
+                                        (`^ {"Merge":true}` / `@ [keys]` / `+ v`; a bare `+` line = void =
+                                        delete) over the keys of the two documents; `wfDiff`, the domain
+                                        of E3, `listDocHunk` hold with NO hypothesis beyond "as read from
+                                        text" and "no void member in `b`";
+          `produced_diff_codec_merge`, `produced_diff_paths_codec_merge`, `produced_diff_renders_merge`
+                                        from the contract on the sub-terms of `b` ONLY (every value of a
+                                        merge diff comes from `b`) and on the key paths;
+          `produced_diff_text_lossless_merge`  identical text; same effect on EVERY document up to the Go
+                                        type of the array nodes of the result (a replaced array is
+                                        reported as a `jsonList` and read back as a plain array). No
+                                        hypothesis on hashes or numbers, none on `a` beyond `rawDoc`;
+          `print_read_patch_merge`, `print_read_patch_total_merge`   `a.Patch` of the diff read back
+                                        succeeds with a document that `Equals` `b`, is equivalent to it
+                                        and structurally equal to it.
+        Hypotheses of E6: `a.wf`, `a.rawDoc` (`a` may contain nulls and void members); `b.wf`, `b.rawDoc`,
+        `b.nullFree` (a merge patch cannot produce a null: C11), `Merge.objVoidFree b` (no void root / member),
+        `b.finiteNums`, `FloatLaws`: exactly those of the in-memory theorem `DPK.merge_diff_then_patch_list`;
+        codec contract on the sub-terms of `b` and the paths of the diff. No hash hypothesis.
+   (E7) DIFFS PRODUCED BY `Diff`, END TO END, MERGE strategy WITH the SET / MULTISET reading (no SetKeys,
+        no Precision; `jd -set -f merge`, `jd -mset -f merge`): `produced_diff_in_domain_setMerge`,
+        `produced_diff_codec_setMerge`, `produced_diff_paths_codec_setMerge`, `produced_diff_renders_setMerge`,
+        `produced_diff_text_lossless_setMerge`, `print_read_patch_setMerge`, `print_read_patch_total_setMerge`.
+        A replaced array is the TYPED node `jsonSet` / `jsonMultiset`; `json.Marshal` writes its members
+        in stored order, so its text is the text of the plain array, the reader returns the plain
+        array, and under the same options it is read as a set / bag again: nothing is lost.
+        Hypotheses (`E2ES.SetMergeDom`, written out in the statements): `isMerge o`, `dispatchTag o = .set ∨
+        .mset`, `keysOf o = none`, `precOf o = 0`, `a.setDoc`, `b.setDoc`, `b.nullFree`, `Merge.objVoidFree b`,
+        `HashFaithful o (subterms a ++ subterms b)`, `FloatEq0` (those of `DPK.merge_diff_then_patch_setmodes`),
+        `FloatLaws` end to end; codec contract on the sub-terms of `b` and the paths.
+        `HashFaithful` is NEEDED HERE FOR C02 ITSELF, not only for C01 — `setMerge_collision_witness`
+        (replayed on the Go library with the same outcome; class of the known finding KF-C04-alias, hash
+        collisions, with a new end-to-end symptom): `{"a":"x","b":["aedb68afb","b7cdeb749"]}` →
+        `{"a":"y","b":["a568b3ad2","b76a57d20"]}` under `[SET, MERGE]`. The two arrays collide (genuine
+        FNV-1a 64 collision), the merge strategy takes them for `Equal` and runs the STRICT set diff:
+        `Diff` emits a strict hunk AFTER a merge hunk (`wfDiff` is false). In memory `Patch` succeeds and
+        `Equals` the target; in the text the strict hunk has no metadata line of its own,
+        `ReadDiffString` lets it inherit `{"Merge":true}`, and `Patch` of the diff read back is an ERROR.
+        The general fact behind it, `read_of_render_inherits_merge`: for ANY sequence of `wfHunk` hunks
+        (no `mergeMono`) the reader returns `E2ES.inheritMerge false (normDiff d)` — the Merge flag stays in
+        force for every following hunk; `read_of_render` is the case `mergeMono`. So the text format
+        CANNOT carry a strict hunk after a merge hunk: that is why `wfDiff` asks `mergeMono`.
   OUTSIDE the domain the effect CAN differ; every witness below is inside `wfDiff` (the domain of the
   text clauses), so the hypotheses are not artefacts of the proof:
     `noEmptySetKeys_needed` / `emptySetKeys_witness`  `{}` as keyed element: error before, `[null]` after;
@@ -117,13 +193,19 @@
     `void_add_in_list_witness`  a strict list hunk stores a void `add` entry in the array;
     `set_tag_witness`         a `jsonSet`-typed `remove` value (not `rawHunk`, not `hunkListDoc`):
                               error before, success after.
-  NOT PROVED: strict hunks whose payload carries set / multiset TYPED array nodes, and tagged
-  payloads of strict hunks on set / multiset paths (false in general, `set_tag_witness`); these are
-  not producible from text and are covered by the oracle (same effect on `a` and `b`) only.
+  NOT PROVED: END TO END for the SetKeys option (keyed `{"k":v}` path elements; E1 covers such hunks
+  hunk-wise, with the premises as hypotheses) and for a Precision option together with the SET /
+  MULTISET readings or the MERGE strategy (E4 has Precision; E5, E7 and `print_read_patch_merge*` ask
+  `precOf o = 0`); colour output end to end (colour text is not input for the reader;
+  `color_is_plain_plus_ansi` is the clause of the property); anything under a hash collision (`setMerge_collision_witness`); strict hunks whose payload
+  carries set / multiset TYPED array nodes, and tagged payloads of strict hunks on set / multiset
+  paths (false in general, `set_tag_witness`; not producible from text, covered by the oracle — same
+  effect on `a` and `b` — only).
 -/
 import JdProofs.NativeRoundTrip
 import JdProofs.Robust
 import JdProofs.NativeEndToEnd
+import JdProofs.NativeEndToEndSet
 
 set_option autoImplicit false
 
@@ -541,5 +623,406 @@ example (text : String)
     E2E.Example.dom.2.2.2.2.2.2.2.2.1 E2E.Example.dom.2.2.2.2.2.2.2.2.2.1
     E2E.Example.dom.2.2.2.2.2.2.2.2.2.2 (fun z hz => (E2E.Example.ex_vals z hz).2)
     (fun h hh => (E2E.Example.ex_paths h hh).2) text hr
+
+/-! ## (E5) Diffs produced by `Diff`, end to end: SET / MULTISET readings, strict strategy
+
+  Names of `Jd.E2ES`, `Jd.DES` and `Jd.Merge` are written qualified. `subterms x` (`Jd.subterms`,
+  JdProofs/EqualsSet.lean) lists all nodes of `x` (the same function as `DPL.subterms`:
+  `E2ES.subterms_eq`); `DES.SetReading o`: `dispatchTag o = .set ∧ keysOf o = none`, or `dispatchTag o = .mset`;
+  `E2ES.SPath K p`: `p` is a path of object keys from `K`, possibly followed by one `{}` (set) or `[]`
+  (multiset) element; `DES.DiffFaithful o SA SB`: a node of `SA` and a node of `SB` with the same hash
+  code are arrays hashed from the same member hash codes resp. (SET reading) `Equals` objects;
+  `HashFaithful o S`: equal hash codes among the nodes `S` only for equivalent nodes. -/
+
+/-- **the premises are theorems about `Diff`, SET / MULTISET readings.** For documents as read from
+    text with nothing void inside and no harmful hash collision, the hunk sequence `a.Diff(b)` is in
+    the reader's domain (`wfDiff`); every hunk is tag-free (`rawHunk`: a replaced array is reported as
+    the plain array), there is no `{}`-keyed element (`noEmptySetKeys`), void entries are harmless
+    (`voidOK`), the hunks re-render identically (`listDocHunk`); every hunk is strict, has no context
+    lines, and is addressed by keys of the two documents possibly followed by `{}` / `[]` -/
+theorem produced_diff_in_domain_set {o : Opts} (hm : DES.SetReading o) (hp : precOf o = 0)
+    (hmg : isMerge o = false) (a b : Json) (ha : a.rawDoc = true) (hwa : a.wf = true)
+    (hb : b.rawDoc = true) (hwb : b.wf = true) (hva : E2E.voidFree a = true)
+    (hvb : E2E.voidFree b = true) (FH : DES.DiffFaithful o (subterms a) (subterms b)) :
+    wfDiff (diffM o a b) = true ∧ (diffM o a b).all rawHunk = true ∧
+    noEmptySetKeys (diffM o a b) = true ∧ (diffM o a b).all voidOK = true ∧
+    (diffM o a b).all listDocHunk = true ∧
+    (∀ h ∈ diffM o a b, h.merge = false ∧ h.before = [] ∧ h.after = [] ∧
+      E2ES.SPath (E2E.docKeys a ++ E2E.docKeys b) h.path) :=
+  E2ES.diffM_premises_set hm hp hmg a b ha hwa hb hwb hva hvb FH
+
+/-- the codec contract for the diff follows from the contract on the SUB-TERMS of the two documents
+    (every payload value of the diff is literally one of them) and on the paths of the diff -/
+theorem produced_diff_codec_set (nc : NumCodec) {o : Opts} (hm : DES.SetReading o)
+    (hp : precOf o = 0) (hmg : isMerge o = false) (a b : Json) (ha : a.rawDoc = true)
+    (hwa : a.wf = true) (hb : b.rawDoc = true) (hwb : b.wf = true)
+    (hva : E2E.voidFree a = true) (hvb : E2E.voidFree b = true)
+    (FH : DES.DiffFaithful o (subterms a) (subterms b))
+    (hv : ∀ z ∈ subterms a ++ subterms b, ValOK nc z)
+    (hpth : ∀ h ∈ diffM o a b, PathOK nc h.path) :
+    CodecOK nc (diffM o a b) :=
+  E2ES.diffM_codecOK_set nc hm hp hmg a b ha hwa hb hwb hva hvb FH hv hpth
+
+/-- the path hypothesis at the level of the inputs: it is enough that the contract holds of every
+    path `keys ++ ({} | [] | nothing)` over the keys of the two documents -/
+theorem produced_diff_paths_codec_set (nc : NumCodec) {o : Opts} (hm : DES.SetReading o)
+    (hp : precOf o = 0) (hmg : isMerge o = false) (a b : Json) (ha : a.rawDoc = true)
+    (hwa : a.wf = true) (hb : b.rawDoc = true) (hwb : b.wf = true)
+    (hva : E2E.voidFree a = true) (hvb : E2E.voidFree b = true)
+    (FH : DES.DiffFaithful o (subterms a) (subterms b))
+    (hpaths : ∀ p, E2ES.SPath (E2E.docKeys a ++ E2E.docKeys b) p → PathOK nc p) :
+    ∀ h ∈ diffM o a b, PathOK nc h.path :=
+  E2ES.diffM_pathOK_of_inputs_set nc hm hp hmg a b ha hwa hb hwb hva hvb FH hpaths
+
+/-- **C02 for every diff PRODUCED by `Diff` in the SET / MULTISET readings (strict strategy).** The
+    printed text of `a.Diff(b)` is read back as a diff that renders to the IDENTICAL text and has
+    EXACTLY the same outcome (result or error) as `a.Diff(b)` on EVERY document `c`, whatever its
+    array types -/
+theorem produced_diff_text_lossless_set (nc : NumCodec) {o : Opts} (hm : DES.SetReading o)
+    (hp : precOf o = 0) (hmg : isMerge o = false) (a b : Json) (ha : a.rawDoc = true)
+    (hwa : a.wf = true) (hb : b.rawDoc = true) (hwb : b.wf = true)
+    (hva : E2E.voidFree a = true) (hvb : E2E.voidFree b = true)
+    (FH : DES.DiffFaithful o (subterms a) (subterms b))
+    (hv : ∀ z ∈ subterms a ++ subterms b, ValOK nc z)
+    (hpth : ∀ h ∈ diffM o a b, PathOK nc h.path)
+    (text : String) (hr : renderM nc [] (diffM o a b) = some text) :
+    ∃ d', readDiffM nc text = .ok d' ∧ renderM nc [] d' = some text ∧
+      ∀ c : Json, patchM c d' = patchM c (diffM o a b) :=
+  E2ES.diff_text_lossless_set nc hm hp hmg a b ha hwa hb hwb hva hvb FH hv hpth text hr
+
+/-- **`jd -set a b | jd -p -set a` (resp. `-mset`), on the model.** If `a.Diff(b).Render()` gives `text`,
+    then `ReadDiffString(text)` succeeds with `d' = normDiff (a.Diff(b))`, and `a.Patch(d')` succeeds with
+    THE SAME document `r` as the in-memory `a.Patch(a.Diff(b))`; `r` is equivalent to `b` under the set
+    (bag) reading and `Equals` `b` under the options of the diff -/
+theorem print_read_patch_set (F : FloatEq0) (L : FloatLaws) (nc : NumCodec) (o : Opts)
+    (hm : dispatchTag o = .set ∨ dispatchTag o = .mset) (hk : keysOf o = none)
+    (hmg : isMerge o = false) (hp : precOf o = 0) (a b : Json)
+    (ha : a.setDoc = true) (hb : b.setDoc = true)
+    (hva : E2E.voidFree a = true) (hvb : E2E.voidFree b = true)
+    (HF : HashFaithful o (subterms a ++ subterms b))
+    (hv : ∀ z ∈ subterms a ++ subterms b, ValOK nc z)
+    (hpth : ∀ h ∈ diffM o a b, PathOK nc h.path)
+    (text : String) (hr : renderM nc [] (diffM o a b) = some text) :
+    ∃ d', readDiffM nc text = .ok d' ∧ d' = normDiff (diffM o a b) ∧
+      ∃ r, patchM a d' = .ok r ∧ patchM a (diffM o a b) = .ok r ∧
+        equivB o r b = true ∧ equals o r b = true :=
+  E2ES.diff_render_read_patch_set F L nc o hm hk hmg hp a b ha hb hva hvb HF hv hpth text hr
+
+/-- `a.Diff(b).Render()` succeeds when `json.Marshal` succeeds on every sub-term of `a` and `b` and on
+    the paths of the diff -/
+theorem produced_diff_renders_set (nc : NumCodec) {o : Opts} (hm : DES.SetReading o)
+    (hp : precOf o = 0) (hmg : isMerge o = false) (a b : Json) (ha : a.rawDoc = true)
+    (hwa : a.wf = true) (hb : b.rawDoc = true) (hwb : b.wf = true)
+    (hva : E2E.voidFree a = true) (hvb : E2E.voidFree b = true)
+    (FH : DES.DiffFaithful o (subterms a) (subterms b))
+    (hmv : ∀ z ∈ subterms a ++ subterms b, (marshalNode nc z).isSome = true)
+    (hmp : ∀ h ∈ diffM o a b, (jsonM nc (pathToJson h.path)).isSome = true) :
+    ∃ text, renderM nc [] (diffM o a b) = some text :=
+  E2ES.diffM_renders_set nc hm hp hmg a b ha hwa hb hwb hva hvb FH hmv hmp
+
+/-- **end to end, SET / MULTISET readings, total form**: the text EXISTS, is read back, and the
+    diff read back patches `a` to a document equal to `b` -/
+theorem print_read_patch_total_set (F : FloatEq0) (L : FloatLaws) (nc : NumCodec) (o : Opts)
+    (hm : dispatchTag o = .set ∨ dispatchTag o = .mset) (hk : keysOf o = none)
+    (hmg : isMerge o = false) (hp : precOf o = 0) (a b : Json)
+    (ha : a.setDoc = true) (hb : b.setDoc = true)
+    (hva : E2E.voidFree a = true) (hvb : E2E.voidFree b = true)
+    (HF : HashFaithful o (subterms a ++ subterms b))
+    (hv : ∀ z ∈ subterms a ++ subterms b, (marshalNode nc z).isSome = true ∧ ValOK nc z)
+    (hpth : ∀ h ∈ diffM o a b, (jsonM nc (pathToJson h.path)).isSome = true ∧ PathOK nc h.path) :
+    ∃ text d' r, renderM nc [] (diffM o a b) = some text ∧ readDiffM nc text = .ok d' ∧
+      patchM a d' = .ok r ∧ equivB o r b = true ∧ equals o r b = true :=
+  E2ES.diff_print_read_patch_set F L nc o hm hk hmg hp a b ha hb hva hvb HF hv hpth
+
+/-- **`voidFree` cannot be dropped in the SET reading either** (model-only boundary). `E2ES.Witness.wA` =
+    `[void]`, `wB` = `[]`: both satisfy every hypothesis of the C01 set theorem and of
+    `print_read_patch_set` except `voidFree wA` (`HashFaithful` holds), the diff applies IN MEMORY, its
+    text is `@ [{}]` alone (a removed void value has no `-` line) and `ReadDiffString` REJECTS it -/
+theorem void_element_read_witness_set :
+    E2ES.Witness.wA.setDoc = true ∧ E2ES.Witness.wB.setDoc = true ∧
+    DPL.memOK E2ES.Witness.wA = true ∧ DPL.memOK E2ES.Witness.wB = true ∧
+    HashFaithful [.set] (subterms E2ES.Witness.wA ++ subterms E2ES.Witness.wB) ∧
+    E2E.voidFree E2ES.Witness.wA = false ∧ E2E.voidFree E2ES.Witness.wB = true ∧
+    patchM E2ES.Witness.wA (diffM [.set] E2ES.Witness.wA E2ES.Witness.wB) = .ok (.arr .set []) ∧
+    ∃ text, renderM exCodec [] (diffM [.set] E2ES.Witness.wA E2ES.Witness.wB) = some text ∧
+      readDiffM exCodec text = .err :=
+  E2ES.Witness.void_element_witness_set
+
+/-! Non-vacuity of (E5): `SetDP.Example.exA` = `{"s":[true,null,{"k":null}]}`, `SetDP.Example.exB` =
+    `{"s":[{"k":null},null,false],"t":null}` under `[SET]` and `[MULTISET]` (a `@ ["s",{}]` hunk next to an
+    equal object member of the set, and an added member) with the codec `exCodec`: every hypothesis
+    is proved in JdProofs/NativeEndToEndSet.lean (`E2ES.Example`: documents, `voidFree_set`,
+    `faithful_set`, `vals_set`, `paths_set`); only `FloatEq0` / `FloatLaws` remain. -/
+
+example (F : FloatEq0) (L : FloatLaws) : ∀ o, o = [Opt.set] ∨ o = [Opt.mset] →
+    ∃ text d' r, renderM exCodec [] (diffM o SetDP.Example.exA SetDP.Example.exB) = some text ∧
+      readDiffM exCodec text = .ok d' ∧ patchM SetDP.Example.exA d' = .ok r ∧
+      equivB o r SetDP.Example.exB = true ∧ equals o r SetDP.Example.exB = true :=
+  E2ES.Example.ex_set_end_to_end F L
+
+/-- the hypotheses of `produced_diff_text_lossless_set` hold for the pair (no float law at all) -/
+example (text : String)
+    (hr : renderM exCodec [] (diffM [.set] SetDP.Example.exA SetDP.Example.exB) = some text) :
+    ∃ d', readDiffM exCodec text = .ok d' ∧ renderM exCodec [] d' = some text ∧
+      ∀ c : Json, patchM c d' = patchM c (diffM [.set] SetDP.Example.exA SetDP.Example.exB) :=
+  produced_diff_text_lossless_set exCodec (.inl ⟨rfl, rfl⟩) rfl rfl _ _ (by decide) (by decide)
+    (by decide) (by decide) E2ES.Example.voidFree_set.1 E2ES.Example.voidFree_set.2
+    (E2ES.Example.faithful_set _ (.inl rfl)) (fun z hz => (E2ES.Example.vals_set z hz).2)
+    (fun h hh => (E2ES.Example.paths_set _ (.inl rfl) h hh).2) text hr
+
+/-! ## (E6) Diffs produced by `Diff`, end to end: MERGE strategy, list reading of arrays
+
+  `Merge.mh ks v` is the merge hunk `^ {"Merge":true}` / `@ [ks]` / `+ v` (`merge := true`, path `ks` as
+  keys, `add = [v]`, nothing else; `v` void: the bare `+` line, a deletion). `Merge.objVoidFree x`: `x`
+  is not void and no object member inside `x` is void. -/
+
+/-- **the premises are theorems about `Diff`, MERGE strategy.** For documents as read from text
+    (`b` without void members) `a.Diff(b, MERGE)` is in the reader's domain (`wfDiff`), in the domain of
+    the merge same-effect theorem (E3), re-renders identically (`listDocHunk`), and every hunk is a
+    merge hunk `Merge.mh ks v` over the keys of the two documents whose value is a list document -/
+theorem produced_diff_in_domain_merge (o : Opts) (ho : dispatchTag o = .list)
+    (hm : isMerge o = true) (a b : Json) (ha : a.rawDoc = true) (hb : b.rawDoc = true)
+    (hv : Merge.objVoidFree b = true) :
+    wfDiff (diffM o a b) = true ∧
+    (diffM o a b).all (fun h => h.merge && voidOK h) = true ∧
+    (diffM o a b).all listDocHunk = true ∧
+    (∀ h ∈ diffM o a b, ∃ ks v, h = Merge.mh ks v ∧
+      (∀ k ∈ ks, k ∈ E2E.docKeys a ++ E2E.docKeys b) ∧ v.listDoc = true) :=
+  E2ES.diffM_premises_mergeList o ho hm a b ha hb hv
+
+/-- the codec contract for `a.Diff(b, MERGE)` from the contract on the sub-terms of `b` (the only
+    source of values) and on the paths of the diff -/
+theorem produced_diff_codec_merge (nc : NumCodec) (o : Opts) (ho : dispatchTag o = .list)
+    (hm : isMerge o = true) (a b : Json) (ha : a.rawDoc = true) (hb : b.rawDoc = true)
+    (hvf : Merge.objVoidFree b = true) (hv : ∀ z ∈ subterms b, ValOK nc z)
+    (hpth : ∀ h ∈ diffM o a b, PathOK nc h.path) :
+    CodecOK nc (diffM o a b) :=
+  E2ES.diffM_codecOK_mergeList nc o ho hm a b ha hb hvf hv hpth
+
+/-- the path hypothesis at the level of the inputs: the contract on every key path over the keys of
+    the two documents -/
+theorem produced_diff_paths_codec_merge (nc : NumCodec) (o : Opts) (ho : dispatchTag o = .list)
+    (hm : isMerge o = true) (a b : Json) (ha : a.rawDoc = true) (hb : b.rawDoc = true)
+    (hvf : Merge.objVoidFree b = true)
+    (hpaths : ∀ ks : List String, (∀ k ∈ ks, k ∈ E2E.docKeys a ++ E2E.docKeys b) →
+      PathOK nc (ks.map PathElem.key)) :
+    ∀ h ∈ diffM o a b, PathOK nc h.path :=
+  E2ES.diffM_pathOK_of_inputs_mergeList nc o ho hm a b ha hb hvf hpaths
+
+/-- **C02 for every diff PRODUCED by `Diff` with the MERGE strategy (list reading).** No hypothesis
+    on hashes or numbers, none on `a` beyond "as read from text": the printed text of
+    `a.Diff(b, MERGE)` is read back as a diff that renders to the IDENTICAL text and has the same
+    effect as the original on EVERY document `c` (same success / failure, same result up to the Go
+    type of array nodes) -/
+theorem produced_diff_text_lossless_merge (nc : NumCodec) (o : Opts) (ho : dispatchTag o = .list)
+    (hm : isMerge o = true) (a b : Json) (ha : a.rawDoc = true) (hb : b.rawDoc = true)
+    (hvf : Merge.objVoidFree b = true) (hv : ∀ z ∈ subterms b, ValOK nc z)
+    (hpth : ∀ h ∈ diffM o a b, PathOK nc h.path)
+    (text : String) (hr : renderM nc [] (diffM o a b) = some text) :
+    ∃ d', readDiffM nc text = .ok d' ∧ renderM nc [] d' = some text ∧
+      ∀ c : Json,
+        Outcome.mapO untag (patchM c d') = Outcome.mapO untag (patchM c (diffM o a b)) :=
+  E2ES.diff_text_lossless_mergeList nc o ho hm a b ha hb hvf hv hpth text hr
+
+/-- **`jd -f merge a b | jd -p -f merge a` in the native text, on the model** (the diff value is
+    rendered by `Render`, the jd format). `ReadDiffString(text)` succeeds with `d' = normDiff
+    (a.Diff(b, MERGE))` (the same merge hunks, values as plain arrays), and `a.Patch(d')` succeeds with a
+    document that `Equals` `b` under the options, is equivalent to it and structurally equal to it -/
+theorem print_read_patch_merge (L : FloatLaws) (nc : NumCodec) (o : Opts)
+    (hm : isMerge o = true) (ho : dispatchTag o = .list) (hprec : precOf o = 0) (a b : Json)
+    (haw : a.wf = true) (har : a.rawDoc = true)
+    (hbw : b.wf = true) (hbr : b.rawDoc = true) (hbn : b.nullFree = true)
+    (hbv : Merge.objVoidFree b = true) (hbf : b.finiteNums = true)
+    (hv : ∀ z ∈ subterms b, ValOK nc z)
+    (hpth : ∀ h ∈ diffM o a b, PathOK nc h.path)
+    (text : String) (hr : renderM nc [] (diffM o a b) = some text) :
+    ∃ d', readDiffM nc text = .ok d' ∧ d' = normDiff (diffM o a b) ∧
+      ∃ r, patchM a d' = .ok r ∧ equals o r b = true ∧ equivB o r b = true ∧
+        specEq r b = true :=
+  E2ES.diff_render_read_patch_mergeList L nc o hm ho hprec a b haw har hbw hbr hbn hbv hbf hv hpth
+    text hr
+
+/-- `a.Diff(b, MERGE).Render()` succeeds when `json.Marshal` succeeds on every sub-term of `b` and on
+    the key paths -/
+theorem produced_diff_renders_merge (nc : NumCodec) (o : Opts) (ho : dispatchTag o = .list)
+    (hm : isMerge o = true) (a b : Json) (ha : a.rawDoc = true) (hb : b.rawDoc = true)
+    (hvf : Merge.objVoidFree b = true)
+    (hmv : ∀ z ∈ subterms b, (marshalNode nc z).isSome = true)
+    (hmp : ∀ h ∈ diffM o a b, (jsonM nc (pathToJson h.path)).isSome = true) :
+    ∃ text, renderM nc [] (diffM o a b) = some text :=
+  E2ES.diffM_renders_mergeList nc o ho hm a b ha hb hvf hmv hmp
+
+/-- **end to end, MERGE strategy, list reading, total form** -/
+theorem print_read_patch_total_merge (L : FloatLaws) (nc : NumCodec) (o : Opts)
+    (hm : isMerge o = true) (ho : dispatchTag o = .list) (hprec : precOf o = 0) (a b : Json)
+    (haw : a.wf = true) (har : a.rawDoc = true)
+    (hbw : b.wf = true) (hbr : b.rawDoc = true) (hbn : b.nullFree = true)
+    (hbv : Merge.objVoidFree b = true) (hbf : b.finiteNums = true)
+    (hv : ∀ z ∈ subterms b, (marshalNode nc z).isSome = true ∧ ValOK nc z)
+    (hpth : ∀ h ∈ diffM o a b, (jsonM nc (pathToJson h.path)).isSome = true ∧ PathOK nc h.path) :
+    ∃ text d' r, renderM nc [] (diffM o a b) = some text ∧ readDiffM nc text = .ok d' ∧
+      patchM a d' = .ok r ∧ equals o r b = true ∧ equivB o r b = true ∧ specEq r b = true :=
+  E2ES.diff_print_read_patch_mergeList L nc o hm ho hprec a b haw har hbw hbr hbn hbv hbf hv hpth
+
+/-! Non-vacuity of (E6): `MSet.Example.exA` = `{"s":["x","y"],"u":"x","v":["x"]}`, `MSet.Example.exB` =
+    `{"s":["y","x"],"t":[true],"v":["x","z"]}` under `[MERGE]` (four merge hunks: `s` and `v` replaced by
+    `jsonList` nodes, `u` deleted with a bare `+` line, `t` added): every hypothesis is proved
+    (`E2ES.Example.docs_merge`, `vals_merge`, `flat_keys`); only `FloatLaws` remains. -/
+
+example (L : FloatLaws) :
+    ∃ text d' r, renderM exCodec [] (diffM [.merge] MSet.Example.exA MSet.Example.exB) = some text ∧
+      readDiffM exCodec text = .ok d' ∧ patchM MSet.Example.exA d' = .ok r ∧
+      equals [.merge] r MSet.Example.exB = true ∧ equivB [.merge] r MSet.Example.exB = true ∧
+      specEq r MSet.Example.exB = true :=
+  E2ES.Example.ex_merge_end_to_end L
+
+/-! ## (E7) Diffs produced by `Diff`, end to end: MERGE strategy with the SET / MULTISET reading
+
+  The hypotheses on options and documents are those of the structure `E2ES.SetMergeDom o a b`, written
+  out here: `isMerge o`, `dispatchTag o = .set ∨ .mset`, `keysOf o = none`, `precOf o = 0`, `a.setDoc`,
+  `b.setDoc`, `b.nullFree`, `Merge.objVoidFree b`, `HashFaithful o (subterms a ++ subterms b)`. -/
+
+/-- **the premises are theorems about `Diff`, SET / MULTISET with MERGE**: a sequence of merge hunks
+    over the keys of the two documents, in the domain of the reader (`wfDiff`) and of the merge
+    same-effect theorem (E3); every value is void (deletion), a plain document, or a plain array
+    re-typed as `jsonSet` / `jsonMultiset` at the top (so `untag v` is a plain document) -/
+theorem produced_diff_in_domain_setMerge (F : FloatEq0) {o : Opts} {a b : Json}
+    (hmg : isMerge o = true) (hm : dispatchTag o = .set ∨ dispatchTag o = .mset)
+    (hk : keysOf o = none) (hp : precOf o = 0) (ha : a.setDoc = true) (hb : b.setDoc = true)
+    (hn : b.nullFree = true) (hvf : Merge.objVoidFree b = true)
+    (HF : HashFaithful o (subterms a ++ subterms b)) :
+    wfDiff (diffM o a b) = true ∧
+    (diffM o a b).all (fun h => h.merge && voidOK h) = true ∧
+    (∀ h ∈ diffM o a b, ∃ ks v, h = Merge.mh ks v ∧
+      (∀ k ∈ ks, k ∈ E2E.docKeys a ++ E2E.docKeys b) ∧ (untag v).rawDoc = true ∧
+      (v.rawDoc = true ∨ ∃ ys, rawDocList ys = true ∧ v = .arr (dispatchTag o) ys)) :=
+  E2ES.diffM_premises_mergeSet F ⟨hmg, hm, hk, hp, ha, hb, hn, hvf, HF⟩
+
+/-- the codec contract for `a.Diff(b, SET, MERGE)`: the contract on a plain array carries over to the
+    typed node (same text, same value read back) -/
+theorem produced_diff_codec_setMerge (F : FloatEq0) (nc : NumCodec) {o : Opts} {a b : Json}
+    (hmg : isMerge o = true) (hm : dispatchTag o = .set ∨ dispatchTag o = .mset)
+    (hk : keysOf o = none) (hp : precOf o = 0) (ha : a.setDoc = true) (hb : b.setDoc = true)
+    (hn : b.nullFree = true) (hvf : Merge.objVoidFree b = true)
+    (HF : HashFaithful o (subterms a ++ subterms b))
+    (hv : ∀ z ∈ subterms b, ValOK nc z) (hpth : ∀ h ∈ diffM o a b, PathOK nc h.path) :
+    CodecOK nc (diffM o a b) :=
+  E2ES.diffM_codecOK_mergeSet F nc ⟨hmg, hm, hk, hp, ha, hb, hn, hvf, HF⟩ hv hpth
+
+/-- the path hypothesis at the level of the inputs -/
+theorem produced_diff_paths_codec_setMerge (F : FloatEq0) (nc : NumCodec) {o : Opts} {a b : Json}
+    (hmg : isMerge o = true) (hm : dispatchTag o = .set ∨ dispatchTag o = .mset)
+    (hk : keysOf o = none) (hp : precOf o = 0) (ha : a.setDoc = true) (hb : b.setDoc = true)
+    (hn : b.nullFree = true) (hvf : Merge.objVoidFree b = true)
+    (HF : HashFaithful o (subterms a ++ subterms b))
+    (hpaths : ∀ ks : List String, (∀ k ∈ ks, k ∈ E2E.docKeys a ++ E2E.docKeys b) →
+      PathOK nc (ks.map PathElem.key)) :
+    ∀ h ∈ diffM o a b, PathOK nc h.path :=
+  E2ES.diffM_pathOK_of_inputs_mergeSet F nc ⟨hmg, hm, hk, hp, ha, hb, hn, hvf, HF⟩ hpaths
+
+/-- **C02 for every diff PRODUCED by `Diff` with SET / MULTISET and MERGE**: identical text when
+    rendered again; same effect on EVERY document up to the Go type of array nodes of the result -/
+theorem produced_diff_text_lossless_setMerge (F : FloatEq0) (nc : NumCodec) {o : Opts} {a b : Json}
+    (hmg : isMerge o = true) (hm : dispatchTag o = .set ∨ dispatchTag o = .mset)
+    (hk : keysOf o = none) (hp : precOf o = 0) (ha : a.setDoc = true) (hb : b.setDoc = true)
+    (hn : b.nullFree = true) (hvf : Merge.objVoidFree b = true)
+    (HF : HashFaithful o (subterms a ++ subterms b))
+    (hv : ∀ z ∈ subterms b, ValOK nc z) (hpth : ∀ h ∈ diffM o a b, PathOK nc h.path)
+    (text : String) (hr : renderM nc [] (diffM o a b) = some text) :
+    ∃ d', readDiffM nc text = .ok d' ∧ renderM nc [] d' = some text ∧
+      ∀ c : Json,
+        Outcome.mapO untag (patchM c d') = Outcome.mapO untag (patchM c (diffM o a b)) :=
+  E2ES.diff_text_lossless_mergeSet F nc ⟨hmg, hm, hk, hp, ha, hb, hn, hvf, HF⟩ hv hpth text hr
+
+/-- **end to end, MERGE strategy with the SET / MULTISET reading.** The text printed for
+    `a.Diff(b, SET, MERGE)` is read back as `d' = normDiff (a.Diff(b, SET, MERGE))`, and the library's
+    `a.Patch(d')` succeeds with a document that `Equals` `b` under the options and is equivalent to it
+    under the set (bag) reading -/
+theorem print_read_patch_setMerge (F : FloatEq0) (L : FloatLaws) (nc : NumCodec) {o : Opts}
+    {a b : Json} (hmg : isMerge o = true) (hm : dispatchTag o = .set ∨ dispatchTag o = .mset)
+    (hk : keysOf o = none) (hp : precOf o = 0) (ha : a.setDoc = true) (hb : b.setDoc = true)
+    (hn : b.nullFree = true) (hvf : Merge.objVoidFree b = true)
+    (HF : HashFaithful o (subterms a ++ subterms b))
+    (hv : ∀ z ∈ subterms b, ValOK nc z) (hpth : ∀ h ∈ diffM o a b, PathOK nc h.path)
+    (text : String) (hr : renderM nc [] (diffM o a b) = some text) :
+    ∃ d', readDiffM nc text = .ok d' ∧ d' = normDiff (diffM o a b) ∧
+      ∃ r, patchM a d' = .ok r ∧ equals o r b = true ∧ equivB o r b = true :=
+  E2ES.diff_render_read_patch_mergeSet F L nc ⟨hmg, hm, hk, hp, ha, hb, hn, hvf, HF⟩ hv hpth text hr
+
+/-- `a.Diff(b, SET, MERGE).Render()` succeeds when `json.Marshal` succeeds on every sub-term of `b` and
+    on the key paths -/
+theorem produced_diff_renders_setMerge (F : FloatEq0) (nc : NumCodec) {o : Opts} {a b : Json}
+    (hmg : isMerge o = true) (hm : dispatchTag o = .set ∨ dispatchTag o = .mset)
+    (hk : keysOf o = none) (hp : precOf o = 0) (ha : a.setDoc = true) (hb : b.setDoc = true)
+    (hn : b.nullFree = true) (hvf : Merge.objVoidFree b = true)
+    (HF : HashFaithful o (subterms a ++ subterms b))
+    (hmv : ∀ z ∈ subterms b, (marshalNode nc z).isSome = true)
+    (hmp : ∀ h ∈ diffM o a b, (jsonM nc (pathToJson h.path)).isSome = true) :
+    ∃ text, renderM nc [] (diffM o a b) = some text :=
+  E2ES.diffM_renders_mergeSet F nc ⟨hmg, hm, hk, hp, ha, hb, hn, hvf, HF⟩ hmv hmp
+
+/-- **end to end, SET / MULTISET with MERGE, total form** -/
+theorem print_read_patch_total_setMerge (F : FloatEq0) (L : FloatLaws) (nc : NumCodec) {o : Opts}
+    {a b : Json} (hmg : isMerge o = true) (hm : dispatchTag o = .set ∨ dispatchTag o = .mset)
+    (hk : keysOf o = none) (hp : precOf o = 0) (ha : a.setDoc = true) (hb : b.setDoc = true)
+    (hn : b.nullFree = true) (hvf : Merge.objVoidFree b = true)
+    (HF : HashFaithful o (subterms a ++ subterms b))
+    (hv : ∀ z ∈ subterms b, (marshalNode nc z).isSome = true ∧ ValOK nc z)
+    (hpth : ∀ h ∈ diffM o a b, (jsonM nc (pathToJson h.path)).isSome = true ∧ PathOK nc h.path) :
+    ∃ text d' r, renderM nc [] (diffM o a b) = some text ∧ readDiffM nc text = .ok d' ∧
+      patchM a d' = .ok r ∧ equals o r b = true ∧ equivB o r b = true :=
+  E2ES.diff_print_read_patch_mergeSet F L nc ⟨hmg, hm, hk, hp, ha, hb, hn, hvf, HF⟩ hv hpth
+
+/-! Non-vacuity of (E7): the pair of (E6) under `[SET, MERGE]` and `[MULTISET, MERGE]` (`s` is unchanged
+    as a set; `v` is replaced by a `jsonSet` / `jsonMultiset` node): every hypothesis is proved
+    (`E2ES.Example.dom_setMerge`); only `FloatEq0` / `FloatLaws` remain. -/
+
+example (F : FloatEq0) (L : FloatLaws) : ∀ o, o = [Opt.set, Opt.merge] ∨ o = [Opt.mset, Opt.merge] →
+    ∃ text d' r, renderM exCodec [] (diffM o MSet.Example.exA MSet.Example.exB) = some text ∧
+      readDiffM exCodec text = .ok d' ∧ patchM MSet.Example.exA d' = .ok r ∧
+      equals o r MSet.Example.exB = true ∧ equivB o r MSet.Example.exB = true :=
+  E2ES.Example.ex_setMerge_end_to_end F L
+
+/-! ### What the text cannot carry: a strict hunk after a merge hunk
+
+  `E2ES.setMerge m h` is `h` with its Merge flag set to `m`; `E2ES.inheritMerge m d` sets the flag of
+  every hunk of `d` to "`m`, or some hunk up to and including this one is a merge hunk". -/
+
+/-- **what `ReadDiffString` returns for ANY rendered hunk sequence** (every hunk in the reader's
+    domain, `wfHunk`; NO `mergeMono`): the hunks as `normDiff` describes them, with the Merge flag
+    INHERITED from the preceding hunks — a strict hunk that follows a merge hunk comes back as a
+    merge hunk. `read_of_render` is the case `mergeMono` (`E2ES.read_render_inherit_mono`) -/
+theorem read_of_render_inherits_merge (nc : NumCodec) (d : Diff) (text : String)
+    (hw : d.all wfHunk = true) (hc : CodecOK nc d) (hr : renderM nc [] d = some text) :
+    readDiffM nc text = .ok (E2ES.inheritMerge false (normDiff d)) :=
+  E2ES.read_render_inherit nc d text hw hc hr
+
+/-- with `mergeMono` nothing is inherited that was not there -/
+theorem inherits_nothing_when_merge_hunks_come_last (m : Bool) (d : Diff)
+    (h : mergeMono m d = true) : E2ES.inheritMerge m d = d :=
+  E2ES.inheritMerge_of_mono m d h
+
+/-- **`HashFaithful` cannot be dropped from (E7): a genuine FNV-1a 64 collision** (class of the known
+    finding KF-C04-alias; replayed on the Go library). `E2ES.Collision.wa` =
+    `{"a":"x","b":["aedb68afb","b7cdeb749"]}`, `wb` = `{"a":"y","b":["a568b3ad2","b76a57d20"]}`,
+    `E2ES.Collision.o` = `[SET, MERGE]`: every other hypothesis of `print_read_patch_setMerge` holds; `Diff`
+    emits a merge hunk followed by a STRICT set hunk (`wfDiff` false); in memory `Patch` succeeds and the
+    result `Equals` the target; the printed text is accepted by `ReadDiffString`, and `Patch` of the
+    diff read back is an ERROR -/
+theorem setMerge_collision_witness :
+    isMerge E2ES.Collision.o = true ∧ dispatchTag E2ES.Collision.o = .set ∧
+    keysOf E2ES.Collision.o = none ∧ precOf E2ES.Collision.o = 0 ∧
+    E2ES.Collision.wa.setDoc = true ∧ E2ES.Collision.wb.setDoc = true ∧
+    E2ES.Collision.wb.nullFree = true ∧ Merge.objVoidFree E2ES.Collision.wb = true ∧
+    ¬ HashFaithful E2ES.Collision.o (subterms E2ES.Collision.wa ++ subterms E2ES.Collision.wb) ∧
+    (∃ h1 h2, diffM E2ES.Collision.o E2ES.Collision.wa E2ES.Collision.wb = [h1, h2] ∧
+      h1.merge = true ∧ h2.merge = false) ∧
+    wfDiff (diffM E2ES.Collision.o E2ES.Collision.wa E2ES.Collision.wb) = false ∧
+    (∃ r, patchM E2ES.Collision.wa (diffM E2ES.Collision.o E2ES.Collision.wa E2ES.Collision.wb) = .ok r ∧
+      equals E2ES.Collision.o r E2ES.Collision.wb = true) ∧
+    ∃ text d', renderM exCodec [] (diffM E2ES.Collision.o E2ES.Collision.wa E2ES.Collision.wb)
+        = some text ∧
+      readDiffM exCodec text = .ok d' ∧ patchM E2ES.Collision.wa d' = .err :=
+  E2ES.Collision.collision_witness_setMerge
 
 end Jd.Props.C02
